@@ -122,7 +122,7 @@ func (g *gen) freshAtomOf(p int) Atom {
 
 func (g *gen) freshAtom() Atom {
 	// weights: arity 0 rare, arities 1-3 common
-	return g.freshAtomOf(rapid.SampledFrom([]int{0, 1, 1, 2, 2, 2, 3, 4, 4, 4, 5, 5, 6}).Draw(g.t, "pred"))
+	return g.freshAtomOf(rapid.SampledFrom([]int{0, 1, 1, 2, 2, 2, 3, 4, 4, 4, 5, 5, 6, 7, 7}).Draw(g.t, "pred"))
 }
 
 func (g *gen) pick(list []Atom, label string) Atom {
@@ -231,6 +231,7 @@ func (g *gen) store(kind string, depth int, removable, base bool, used map[strin
 //	mode 1: constants only after the first column (the first is a variable or wildcard)
 //	mode 2: one variable in two columns
 //	mode 3: as a stored atom, but one column (mostly the first) carries a hash twin of the stored value
+//	mode 4: exactly one constant column, anywhere
 //	otherwise free
 func (g *gen) cols(on, p int, mode int) []Col {
 	ar := preds[p].Arity
@@ -272,6 +273,16 @@ func (g *gen) cols(on, p int, mode int) []Col {
 	}
 	if mode == 1 && ar >= 2 {
 		j := rapid.IntRange(1, ar-1).Draw(g.t, "constcol")
+		cols[j] = constant(j)
+	}
+	if mode == 4 && ar >= 2 {
+		// exactly one constant, in any column (late columns of wide predicates included)
+		j := rapid.IntRange(0, ar-1).Draw(g.t, "onlyconst")
+		for i := range cols {
+			if i != j && cols[i].K == "c" {
+				cols[i] = Col{K: "_"}
+			}
+		}
 		cols[j] = constant(j)
 	}
 	if mode == 2 && ar >= 2 {
@@ -398,13 +409,13 @@ func (g *gen) step() Step {
 		a := g.atom("contains", pref{g.present[on], 40}, pref{g.mentioned, 30})
 		s = Step{Op: "contains", On: on, Atom: &a}
 	case w < 77:
-		mode := rapid.SampledFrom([]int{0, 0, 0, 1, 1, 2, 3, 3}).Draw(g.t, "qmode")
+		mode := rapid.SampledFrom([]int{0, 0, 0, 1, 1, 2, 3, 3, 4}).Draw(g.t, "qmode")
 		if len(g.twinIdx) == 0 && mode == 3 {
 			mode = 0
 		}
-		p := rapid.SampledFrom([]int{0, 1, 2, 2, 2, 3, 4, 4, 4, 5, 5, 5, 6}).Draw(g.t, "qpred")
-		if mode == 1 || mode == 2 {
-			p = rapid.SampledFrom([]int{2, 4, 5}).Draw(g.t, "qpred2")
+		p := rapid.SampledFrom([]int{0, 1, 2, 2, 2, 3, 4, 4, 4, 5, 5, 5, 6, 7, 7}).Draw(g.t, "qpred")
+		if mode == 1 || mode == 2 || mode == 4 {
+			p = rapid.SampledFrom([]int{2, 4, 5, 7, 7}).Draw(g.t, "qpred2")
 		}
 		var cands []Atom
 		for _, a := range g.present[on] {
